@@ -513,7 +513,8 @@ def unpauseRequest (s : State) (id : Id) (ext : Bool) : State × ApiRes × Bool 
   | some r =>
     if r.state != .paused then (s, .err, false)
     else
-      let s1 := setState s id .queued
+      -- /repo 27b8f26: a pause signal the executor did not consume before the response paused is dropped
+      let s1 := setState (modAux s id fun a => { a with sigPause := false }) id .queued
       if ext then
         let (s2, ok) := execTx s1 .mgr r.peer id [.ext]
         if ok then (unpauseFinish s2 id, .ok, false) else (parkMgr s2 (.unpause id ext) r.peer id [.ext], .ok, true)
